@@ -91,7 +91,7 @@ def check_write(case):
     """case: {"devices": [...], "frags": {...}, "d": int, "v": int, "els": [int...], "vals": [val...]}"""
     st_ = None
     try:
-        st_ = stack.Stack(case["devices"], case.get("frags"))
+        st_ = stack.Stack(case["devices"], case.get("frags"), early=case.get("early", ()))
         dep = st_.dep
         # candidates: enabled, writable, non-light vectors
         cands = []
@@ -99,7 +99,8 @@ def check_write(case):
             for g, v in dep.vectors[d]:
                 if v["kind"] != "Light" and v.get("perm", "rw") != "ro" and dep.is_enabled(d, g, v) and any(e["enabled"] for e in v["elements"]):
                     cands.append((d, g, v))
-        stack.compare_views(dep, st_.client)
+        # (a BLOB the driver holds from the start is unknown to the client until it is published: definitions carry no payload)
+        stack.compare_views(dep, st_.client, lambda *a: "equal-or-absent")
         if not cands:
             return Info(nontrivial=False, labels=["no-writable-target"])
         d, g, v = cands[(case["d"] * 7 + case["v"]) % len(cands)]
@@ -184,8 +185,9 @@ def check_write(case):
                 if not ons and n not in submitted and after[(d, v["name"], n)] != before[(d, v["name"], n)]:
                     raise Failure("other-state-changed:same-vector", f"{where}: {n} changed")
             changed_any = changed_any or any(after[(d, v["name"], n)] != before[(d, v["name"], n)] for n in names)
-        # the client's own view shows the new values
-        stack.compare_views(dep, st_.client)
+        # the client's own view shows the new values (the update lists every element of the written property)
+        target_names = (dep.specs[d]["name"], v["name"])
+        stack.compare_views(dep, st_.client, lambda dn, vn, en: "equal" if (dn, vn) == target_names else "equal-or-absent")
         # a second submit() without new assignments must not write anything again
         if kind in ("Text", "Number"):
             # the driver moves on; a stale re-send of the earlier value would overwrite this
@@ -232,6 +234,8 @@ case_st = st.fixed_dictionaries(
         "v": st.integers(0, 8),
         "els": st.lists(st.integers(0, 3), min_size=1, max_size=3),
         "vals": st.lists(val_st, min_size=1, max_size=3),
+        # devices whose name is addressed (getProperties of a snooper-to-be) before the driver is constructed
+        "early": st.lists(st.integers(0, 2), max_size=2),
     }
 )
 
